@@ -99,6 +99,11 @@ def gen_scenario(rng, style="mixed", ndev=None, transports=("pipe", "pipe", "tcp
     for k in range(ncli):
         if rng.random() < 0.5:
             S.append(("send", k, b"quit\r\n")); S.append(("wait", k))
+    if style in ("faults", "mixed") and any(d.transport == "tcp" for d in cfg.devs) and rng.random() < 0.3:
+        # the first connect attempts of the tcp devices fail in every way connect() can fail: at once with an errno (syncfail), later
+        # through poll (POLLHUP, SO_ERROR), or they stay pending for a while
+        S.insert(0, ("raw", ["PLAN " + rng.choice(["syncfail", "syncfail", "refuse-hup", "refuse-soerr", "pending", "ok-now"]) for _ in range(rng.randint(1, 6))]))
+        sc.tags["plans"] = True
     return sc
 
 
